@@ -267,15 +267,24 @@ KEYLIST_KEYS = ["tags", "x", "nested", "extra", "kernelspec", "y", "collapsed"]
 
 def project_keys(nb, mapping):
     nb = copy.deepcopy(to_plain(nb))
-    for k in mapping.get("/metadata", []):
+    nbkeys = list(mapping.get("/metadata", [])) if mapping.get("/metadata") is not True else []
+    ckeys = list(mapping.get("/cells/*/metadata", [])) if mapping.get("/cells/*/metadata") is not True else []
+    for pth, v in mapping.items():
+        if v is True and pth.startswith("/metadata/"):
+            nbkeys.append(pth[len("/metadata/"):])
+        if v is True and pth.startswith("/cells/*/metadata/"):
+            ckeys.append(pth[len("/cells/*/metadata/"):])
+    for k in nbkeys:
         nb["metadata"].pop(k, None)
     for c in nb.get("cells", []):
-        for k in mapping.get("/cells/*/metadata", []):
+        for k in ckeys:
             c["metadata"].pop(k, None)
+        if "flags" in mapping:
+            pass
     return nb
 
 
-def judge_keylist(col, a, b, mapping, via_file, tmp, confined):
+def judge_keylist(col, a, b, mapping, via_file, tmp, confined, flags=()):
     from .. import nbd
     from ..gen_nb import to_node
     import nbdime.diffing.notebooks as dn
@@ -290,7 +299,7 @@ def judge_keylist(col, a, b, mapping, via_file, tmp, confined):
         cwd = os.getcwd()
         os.chdir(tmp)
         try:
-            ns = app._build_arg_parser("nbdiff").parse_args(["a.ipynb", "b.ipynb"])
+            ns = app._build_arg_parser("nbdiff").parse_args(list(flags) + ["a.ipynb", "b.ipynb"])
             process_diff_flags(ns)
         finally:
             os.chdir(cwd)
@@ -298,7 +307,12 @@ def judge_keylist(col, a, b, mapping, via_file, tmp, confined):
         nbd.quiet_logging()
     else:
         dn.set_notebook_diff_ignores(mapping)
-    case = {"A": a, "B": b, "S": ["keylist"], "route": "ignore-keylist-file" if via_file else "ignore-keylist-direct", "mapping": mapping, "confined_to": confined}
+        if flags:
+            # library order of the same two steps: mapping first, then the category table for the flags
+            kw = {"-D": {"details": False}, "-A": {"attachments": False}, "-I": {"identifier": False}}[flags[0]]
+            dn.set_notebook_diff_targets(**kw)
+    case = {"A": a, "B": b, "S": ["keylist"], "route": ("ignore-keylist-file" if via_file else "ignore-keylist-direct") + ("+flag" if flags else ""),
+            "mapping": mapping, "confined_to": confined, "flags": list(flags)}
     try:
         d = nbd.diff_notebooks(to_node(a), to_node(b))
         p = nbd.patch_notebook(to_node(a), d)
@@ -313,16 +327,28 @@ def judge_keylist(col, a, b, mapping, via_file, tmp, confined):
     pd = to_plain(d)
     col.mon("keylist")
     leaked = []
+    listed = [bp + "/" + k for bp, keys in mapping.items() if keys is not True for k in keys]
+    whole = [bp for bp, keys in mapping.items() if keys is True]
     for path, op in leaf_paths(pd):
-        for base_path, keys in mapping.items():
-            for k in keys:
-                kp = base_path + "/" + k
-                if path == kp or path.startswith(kp + "/"):
-                    leaked.append(path)
+        for kp in listed:
+            if path == kp or path.startswith(kp + "/"):
+                leaked.append(path)
+        for kp in whole:
+            # `true` on a path hides the differences INSIDE that list/map; the key itself being added, removed or
+            # replaced by another type is reported one level up and is not promised to be hidden
+            if path.startswith(kp + "/"):
+                leaked.append(path)
     if leaked:
         col.violation("op-on-key-listed-in-ignore-mapping", "mapping %s: op at %s" % (mapping, sorted(set(leaked))[:3]), dict(case, diff=pd), "nothing-inside-ignored")
-    if not seq(project_keys(p, mapping), project_keys(b, mapping)):
-        col.violation("keylist-projected-roundtrip-differs", first_difference(project_keys(p, mapping), project_keys(b, mapping)), dict(case, diff=pd), "non-ignored-parts-reproduced")
+    if confined and pd and not leaked and any(v is True for v in mapping.values()):
+        # only key-level add/remove/replace ops remain (see above): nothing to judge for whole-path mappings
+        lp_ = [pth for pth, op in leaf_paths(pd)]
+        if all(pth in whole for pth in lp_):
+            pd = []
+    fcat = {"-D": {"details"}, "-A": {"attachments"}, "-I": {"id"}}.get(flags[0], set()) if flags else set()
+    pp_, pb_ = project(project_keys(p, mapping), fcat), project(project_keys(b, mapping), fcat)
+    if not seq(pp_, pb_):
+        col.violation("keylist-projected-roundtrip-differs", first_difference(pp_, pb_), dict(case, diff=pd), "non-ignored-parts-reproduced")
     if confined and pd and not leaked:
         col.violation("only-listed-keys-differ-nonempty-diff", json.dumps(pd)[:200], dict(case, diff=pd), "only-ignored=>empty")
     if canon(a) != canon(b):
@@ -376,7 +402,14 @@ def keylist_cases(col, r, tmp, n):
             cls, a, b, rec, waste = valid_pair(gen, cls=r.choice(["related", "meta_types", "fixture_mut"]))
             if cls is None:
                 continue
-        judge_keylist(col, a, b, mapping, via_file=(j % 4 < 2), tmp=tmp, confined=confined)
+        # every third case: the mapping is combined with a flag of ANOTHER category (-D / -A / -I); the flag's table must
+        # not wipe Ignore entries on paths it does not own
+        flags = (r.choice(["-D", "-A", "-I"]),) if j % 3 == 0 else ()
+        if flags:
+            # the flag table owns /metadata and /cells/*/metadata themselves ("blows away options set via config for these
+            # fields"), so the combined route names the ignored keys as full paths, which the table does not own
+            mapping = {pth + "/" + k: True for pth, keys in mapping.items() for k in keys}
+        judge_keylist(col, a, b, mapping, via_file=(j % 4 < 2), tmp=tmp, confined=confined, flags=flags)
 
 
 def classify_inside(cat, path, op):
